@@ -218,8 +218,22 @@ func (ru *Rule) Body(r *rand.Rand) string {
 	var b strings.Builder
 	id := ru.ID
 	fmt.Fprintf(&b, "st(%d)%s", id, ws(r))
+	// one rule in four first runs a loop that leaves by break / skips by continue: neither is a return - the
+	// rest of the rule runs, and the rule has a result entry only if it reaches a return of its own
+	switch r.Intn(12) {
+	case 0:
+		fmt.Fprintf(&b, "for lb = 0; lb < 3; lb += 1 {%sif lb == 1 {%sbreak%s}%s}%s", ws(r), ws(r), ws(r), ws(r), ws(r))
+	case 1:
+		fmt.Fprintf(&b, "for lb = 0; lb < 2; lb += 1 {%sif lb == 0 {%scontinue%s}%slc = lb%s}%s", ws(r), ws(r), ws(r), ws(r), ws(r), ws(r))
+	case 2:
+		fmt.Fprintf(&b, "forRange lk := three {%sif lk == 1 {%sbreak%s}%s}%s", ws(r), ws(r), ws(r), ws(r), ws(r))
+	}
 	if ru.Ret == RetLocal {
-		fmt.Fprintf(&b, "xloc = %d%s", ru.RetVal, ws(r))
+		if j := ru.RetVal - 5000; j >= 0 && j < int64(len(LocalSrc)) && r.Intn(2) == 0 {
+			fmt.Fprintf(&b, "xloc = lsv[%d]%s", j, ws(r))
+		} else {
+			fmt.Fprintf(&b, "xloc = %d%s", ru.RetVal, ws(r))
+		}
 		fmt.Fprintf(&b, "yloc = xloc + 1%s", ws(r))
 	}
 	if ru.SetStop {
